@@ -98,6 +98,29 @@ func (c *trCtx) expr(e ast.Expr) string {
 	return c.fail("expression %T", e)
 }
 
+// compositeLit translates Header{Field: expr, ...} (keyed fields only; the others are zero).
+func (c *trCtx) compositeLit(cl *ast.CompositeLit) string {
+	if t, ok := cl.Type.(*ast.Ident); !ok || t.Name != c.structT {
+		c.fail("composite literal type")
+		return "{}"
+	}
+	var fs []string
+	for _, el := range cl.Elts {
+		kv, ok := el.(*ast.KeyValueExpr)
+		if !ok {
+			c.fail("positional composite literal")
+			break
+		}
+		k, ok := kv.Key.(*ast.Ident)
+		if !ok || !c.fields[k.Name] {
+			c.fail("composite literal field")
+			break
+		}
+		fs = append(fs, fmt.Sprintf("%s := %s", lowerFirst(k.Name), c.expr(kv.Value)))
+	}
+	return "{ " + strings.Join(fs, ", ") + " }"
+}
+
 func (c *trCtx) goType(e ast.Expr) (string, bool) {
 	if id, ok := e.(*ast.Ident); ok {
 		switch id.Name {
@@ -167,6 +190,8 @@ func (c *trCtx) translateFunc(fd *ast.FuncDecl, lean string) string {
 			}
 			if id, ok := s.Results[0].(*ast.Ident); ok && c.vars[id.Name] == c.structT {
 				fmt.Fprintf(&b, "  %s\n", id.Name)
+			} else if cl, ok := s.Results[0].(*ast.CompositeLit); ok {
+				fmt.Fprintf(&b, "  (%s : Hdr)\n", c.compositeLit(cl))
 			} else {
 				fmt.Fprintf(&b, "  %s\n", c.expr(s.Results[0]))
 			}
@@ -189,25 +214,7 @@ func (c *trCtx) translateFunc(fd *ast.FuncDecl, lean string) string {
 			switch l := s.Lhs[0].(type) {
 			case *ast.Ident:
 				if cl, ok := rhs.(*ast.CompositeLit); ok {
-					if t, ok := cl.Type.(*ast.Ident); !ok || t.Name != c.structT {
-						c.fail("composite literal type")
-						break
-					}
-					var fs []string
-					for _, el := range cl.Elts {
-						kv, ok := el.(*ast.KeyValueExpr)
-						if !ok {
-							c.fail("positional composite literal")
-							break
-						}
-						k, ok := kv.Key.(*ast.Ident)
-						if !ok || !c.fields[k.Name] {
-							c.fail("composite literal field")
-							break
-						}
-						fs = append(fs, fmt.Sprintf("%s := %s", lowerFirst(k.Name), c.expr(kv.Value)))
-					}
-					fmt.Fprintf(&b, "  let %s : Hdr := { %s }\n", l.Name, strings.Join(fs, ", "))
+					fmt.Fprintf(&b, "  let %s : Hdr := %s\n", l.Name, c.compositeLit(cl))
 					c.vars[l.Name] = c.structT
 				} else {
 					v := c.expr(rhs)
